@@ -7,6 +7,7 @@ CONSTANTS
   Dev_InternalActivityKeepsIdleFlag = FALSE
   Dev_IdleIgnoresMailbox = FALSE
   Dev_CancelBypassesLock = FALSE
+  Dev_SendSkipsLockWhenLoaded = FALSE
   WithCancel = FALSE
 INIT Init
 NEXT Next
